@@ -71,7 +71,7 @@ check("C21", "repro", "exploration",
       "draw sequences are executed in fresh interpreters under different PYTHONHASHSEED values and twice in one process with "
       "unrelated work in between: all result components must be bit-identical; (b) the same JAX VI problem (a 9-parameter "
       "one and a 96-parameter one whose sampling CG needs > 20 iterations) runs under every legal residual_map x kl_map x jit "
-      "x minimizer-jit combination with the jittable static solvers and, where legal, the default eager solvers (37 "
+      "x minimizer-jit combination with the jittable static solvers and, where legal, the default eager solvers, and with the samples sharded over 2 or 4 host devices (41 "
       "variants): positions and samples must agree with the driver's default configuration to 1e-8 x scale; (c) Hypothesis "
       "generates programs over "
       "nifty.cl.random (nested Context, push/pop, spawn, four kinds of draws, exceptions raised at arbitrary statements and "
